@@ -417,7 +417,7 @@ SPEC_TEXT = 'a{top:0} a b{top:1px} b{left:0}'
 @sym(
     'serialize(indentSpecificities-restored)',
     "cssutils.ser.prefs.indentSpecificities = True\n"
-    f"print(cssutils.parseString({SPEC_TEXT!r}).cssText.decode())\ncssutils.ser.prefs.indentSpecificities = False",
+    f"s = cssutils.parseString({SPEC_TEXT!r})\nprint(s.cssText.decode())\nprint(s.cssRules[1].cssText)\ncssutils.ser.prefs.indentSpecificities = False",
 )
 def _ser_spec(cx):
     prefs = cssutils.ser.prefs
